@@ -6,7 +6,7 @@
     marshallings have equal signed content. *)
 From Coq Require Import String List Ascii Bool Arith Permutation.
 From GP Require Import Model.Gv Model.Decode Model.Plugin Model.Pipeline Model.Marshal Model.Reparse Model.Jcs Model.Sign
-     Proofs.MarshalProofs Proofs.JcsProofs Proofs.SignProofs Proofs.RoundtripProofs Proofs.PluginProofs Proofs.ReparseProofs Proofs.RoundtripLink.
+     Proofs.MarshalProofs Proofs.JcsProofs Proofs.SignProofs Proofs.RoundtripProofs Proofs.PluginProofs Proofs.ReparseProofs Proofs.RoundtripLink Model.MarshalYaml Proofs.YamlLegProofs.
 Import ListNotations.
 Local Open Scope string_scope.
 
@@ -42,6 +42,14 @@ Section C02.
     exists c', unm_command (gmap (members (mj_command c))) = Ok c' 0 /\
                verify PK vrf (pub k) (sign K alg_of sgn k c repo penv) c' repo penv' = true.
   Proof. exact (RoundtripLink.signature_survives_reparse K PK pub alg_of sgn vrf vrf_ideal). Qed.
+
+  (** END TO END (YAML leg): the same through the value tree of yaml.Marshal's output *)
+  Theorem signature_survives_yaml_reparse : forall k c repo penv penv',
+    cmd_ok c -> cmd_y_ok c -> NoDup (map fst penv) -> NoDup (map fst penv') ->
+    (forall n v, aget n penv = Some v -> aget n penv' = Some v) ->
+    exists c', unm_command (match my_command c with GMap m => m | _ => [] end) = Ok c' 0 /\
+               verify PK vrf (pub k) (sign K alg_of sgn k c repo penv) c' repo penv' = true.
+  Proof. exact (YamlLegProofs.signature_survives_yaml_reparse K PK pub alg_of sgn vrf vrf_ideal). Qed.
 End C02.
 
 (** the link: command steps whose JSON marshallings are equal have the same signed content, and the
@@ -79,3 +87,4 @@ Print Assumptions nil_empty_identified.
 Print Assumptions signature_survives_reparse.
 Print Assumptions mj_command_signed_content.
 Print Assumptions command_roundtrip_signed_content.
+Print Assumptions signature_survives_yaml_reparse.
